@@ -290,7 +290,8 @@ fn op_c07_sweep(st: &mut State, req: &Value) -> Value {
         Ok(db) => db,
         Err(e) => return json!({"harness_error": e}),
     };
-    let sw = literal::sweep_exhaustive(db, &symbols, max_len, sample_every);
+    let threads = req["threads"].as_u64().unwrap_or(16) as usize;
+    let sw = literal::sweep_exhaustive(db, &symbols, max_len, sample_every, threads);
     json!({
         "strings": sw.strings, "well_formed": sw.well_formed, "with_percent": sw.with_percent,
         "parser_checked": sw.parser_checked, "query_checked": sw.query_checked,
